@@ -17,7 +17,8 @@ import (
 
 // C07 — document store equals last-writer-wins replay, including batch puts.
 
-var docKeys = []string{"a", "A", "ab", "Ab", "b.c", "B.C", "x-1", "k_é", "K_É", "ab9"}
+// (keys with punctuation that means something to a pattern matcher are plain text to the store)
+var docKeys = []string{"a", "A", "ab", "Ab", "b.c", "B.C", "x-1", "k_é", "K_É", "ab9", "a+b", "aab", "x|y", "c(1", "*", "[z]", "q?", "$d", "^h", "a\\b", "b{2}"}
 
 type DocOpC07 struct {
 	Kind string `json:"kind"` // put | putbatch | putall | del | sync
